@@ -43,8 +43,15 @@ class _Cls:
 def _collect(tree):
     classes = {}
     for n in tree.body:
-        if isinstance(n, ast.ClassDef) and n.name.startswith('_') and not n.name.startswith('__') and not n.decorator_list and not n.keywords:
-            classes[n.name] = _Cls(n)
+        if isinstance(n, ast.ClassDef) and n.name.startswith('_') and not n.name.startswith('__') and not n.keywords:
+            if not n.decorator_list:
+                classes[n.name] = _Cls(n)
+            elif len(n.decorator_list) == 1 and ast.unparse(n.decorator_list[0].func if isinstance(n.decorator_list[0], ast.Call) else n.decorator_list[0]).split('.')[-1] == 'dataclass' \
+                    and not n.bases and not any(isinstance(st, ast.FunctionDef) and st.name in ('__init__', '__post_init__') for st in n.body):
+                dc = _dataclass_as_plain(n)
+                if dc is not None:
+                    classes[n.name] = _Cls(dc)
+                    tree.body[tree.body.index(n)] = dc
     ok = {}
     for name, c in classes.items():
         try:
@@ -102,6 +109,34 @@ def _collect(tree):
                 del ok[name]
                 changed = True
     return ok
+
+
+def _dataclass_as_plain(n):
+    """@dataclass class _C: a: int = 0 ; b: int = 0 ; <methods>   ->   the same class with the generated __init__ written out (fields in order, defaults kept)"""
+    fields, body = [], []
+    for st in n.body:
+        if isinstance(st, ast.AnnAssign) and isinstance(st.target, ast.Name) and 'ClassVar' not in ast.unparse(st.annotation):
+            if st.value is not None and not _const_value(st.value):
+                return None         # field(default_factory=...) and friends
+            fields.append((st.target.id, st.value))
+        else:
+            body.append(st)
+    if not fields:
+        return None
+    seen_default = False
+    for _, d in fields:
+        if d is not None:
+            seen_default = True
+        elif seen_default:
+            return None
+    args = ast.arguments(posonlyargs=[], args=[ast.arg(arg='self')] + [ast.arg(arg=f) for f, _ in fields], vararg=None, kwonlyargs=[], kw_defaults=[], kwarg=None,
+                         defaults=[copy.deepcopy(d) for _, d in fields if d is not None])
+    init = ast.FunctionDef(name='__init__', args=args, body=[ast.Assign(targets=[ast.Attribute(value=ast.Name(id='self', ctx=ast.Load()), attr=f, ctx=ast.Store())], value=ast.Name(id=f, ctx=ast.Load()))
+                                                             for f, _ in fields], decorator_list=[], returns=None, type_params=[])
+    new = ast.ClassDef(name=n.name, bases=[], keywords=[], body=[init] + body, decorator_list=[], type_params=[])
+    ast.copy_location(new, n)
+    ast.fix_missing_locations(new)
+    return new
 
 
 def _const_value(v):
